@@ -127,6 +127,38 @@ def _with_name(t, name):
     return dict(t, decl=inner(t["decl"]))
 
 
+def _innermost(d):
+    while d["group"] is not None:
+        d = d["group"]["d"]
+    return d
+
+
+def function_typedef_names(dctx):
+    """typedef names that denote a function type (directly, or through another such typedef)"""
+    names = set()
+    for td in dctx["typedefs"]:
+        t = td["t"]
+        d = t["decl"]
+        core = [x for x in t["specs"] if x not in QUALS]
+        if _innermost(d)["funcs"]:
+            names.add(td["name"])
+        elif d == empty_decl() and len(core) == 1 and isinstance(core[0], list) and core[0][0] == "name" \
+                and core[0][1] in names:
+            names.add(td["name"])
+    return names
+
+
+def void_typedef_names(dctx):
+    names = set()
+    for td in dctx["typedefs"]:
+        t = td["t"]
+        core = [x for x in t["specs"] if x not in QUALS]
+        if t["decl"] == empty_decl() and (core == ["void"] or (len(core) == 1 and isinstance(core[0], list)
+                                                               and core[0][0] == "name" and core[0][1] in names)):
+            names.add(td["name"])
+    return names
+
+
 # ------------------------------------------------------------------------------------------ types
 
 def empty_decl():
@@ -153,6 +185,8 @@ def gen_specs(rng, ctx, allow):
         toks = [["name", rng.choice(STD_NAMES + ["bool", "FILE"])]]
     elif r < 0.85 and ctx["typedefs"]:
         toks = [["name", rng.choice(ctx["typedefs"])["name"]]]
+        if not odd and toks[0][1] in function_typedef_names(ctx):
+            toks = ["int"]        # inside typedefs: no further use of function typedefs (keeps contexts accepted by both)
     elif r < 0.95 and ctx["structs"]:
         s = rng.choice(ctx["structs"])
         toks = [[s["kind"], s["name"]]]
